@@ -72,11 +72,15 @@ def handle (j : PJson) : PJson :=
           | none => .none
         let gas := j.natD "gas" 64
         let r := runLog cfg gas uf root
-        let evs := expectedEvents cfg fs gas (selfOf uf) root
-        mk [("events", .arr (r.trace.map eventToJson)), ("log", ofStrs r.state), ("outcome", outcomeToJson r.outcome),
-            ("statementCount", .num r.opts.statementCount),
-            ("specEvents", .arr ((cutAt (failing fs) evs).map eventToJson)), ("specOutcome", outcomeToJson (specOutcome fs evs)),
-            ("expectedFetches", ofStrs (expectedFetches cfg fs gas (selfOf uf) root))]
+        let base := [("events", .arr (r.trace.map eventToJson)), ("log", ofStrs r.state), ("outcome", outcomeToJson r.outcome),
+            ("statementCount", .num r.opts.statementCount)]
+        -- the specification unfolds the whole tree (it does not stop at a failure or at the budget): only on request,
+        -- for trees the harness knows to be acyclic
+        if j.boolD "spec" false then
+          let evs := expectedEvents cfg fs gas (selfOf uf) root
+          mk (base ++ [("specEvents", .arr ((cutAt (failing fs) evs).map eventToJson)), ("specOutcome", outcomeToJson (specOutcome fs evs)),
+            ("expectedFetches", ofStrs (expectedFetches cfg fs gas (selfOf uf) root))])
+        else mk base
       | _, _ => mk [("bad", .str "run request")]
   | op => mk [("bad", .str ("unknown op " ++ op))]
 
